@@ -71,13 +71,13 @@ PROPS = {
         'explanation': 'Mixed: the cost model and the structure are proved; minimality is bounded-only (Verus has no float theory; SMAWK\'s guarantee needs total monotonicity).',
     },
     'C04': {
-        'units': ['U1', 'U2', 'U3', 'U4', 'U5', 'U6', 'U8', 'U9', 'U10', 'U11', 'U12', 'U13', 'U14', 'U15', 'U16', 'U17'], 'level': 'other', 'kani': [K1, K1MIN],
+        'units': ['U1', 'U2', 'U3', 'U4', 'U5', 'U6', 'U8', 'U9', 'U10', 'U11', 'U12', 'U13', 'U14', 'U15', 'U16', 'U17', 'U18'], 'level': 'other', 'kani': [K1, K1MIN],
         'trusted': ['A1', 'A2', 'A3', 'A4', 'A5', 'A6', 'A7', 'A8', 'A9', 'A10', 'A11', 'A12', 'R15'],
         'proved_part': 'Verus: absence of panics (index/slice bounds incl. char boundaries in NonEmptyLines, arithmetic overflow, unwrap on None, callee preconditions) and '
                        'termination for wrap_first_fit, wrap_optimal_fit (Err only from the is_infinite test), skip_ansi_escape_sequence, display_width (A8), NonEmptyLines::next, '
-                       'wrap_columns (A11), Word::from, break_words, indent, dedent, fill_inplace (incl. from_utf8().unwrap()), wrap, wrap_single_line, wrap_single_line_slow_path (incl. char-boundary safety of its slices), fill_slow_path, find_words_ascii_space, split_words and Word::break_apart (closures, R16).',
+                       'wrap_columns (A11), Word::from, break_words, indent, dedent, fill_inplace (incl. from_utf8().unwrap()), wrap, wrap_single_line, wrap_single_line_slow_path (incl. char-boundary safety of its slices), fill_slow_path, unfill (incl. the #466 class of slice panics), WordSplitter::split_points, WrapAlgorithm::wrap, strip_ansi_escape_sequences, find_words_ascii_space, split_words and Word::break_apart (closures, R16).',
         'bounded_part': 'BEC: every public function under catch_unwind with a hang watchdog over the adversarial alphabet, widths {0,1,2,7,usize::MAX}, all option combinations, '
-                        'extreme penalties; the Unicode word finder, unfill, refill and fill\'s fast path only here.',
+                        'extreme penalties; the Unicode word finder, refill and fill\'s fast path only here.',
         'explanation': 'Mixed: panic-freedom and termination are proof obligations of every Verus unit (listed functions, all inputs); the Unicode word finder (external '
                        'UAX #14 tables), unfill/refill and the thin public wrappers are covered by bounded exhaustive execution only.',
     },
@@ -165,11 +165,16 @@ PROPS = {
         'explanation': 'Bounded only: idempotence is relational over two calls of fill; no single-call contract within reach expresses it.',
     },
     'C15': {
-        'units': ['U4'], 'level': 'other', 'trusted': ['A3', 'A4', 'A12'],
-        'proved_part': 'Verus: NonEmptyLines::next returns the next non-empty line without its \\n / \\r\\n, the right LineEnding, advances past it; None iff only empty lines remain; '
-                       'every slice is on a char boundary; terminates.',
-        'bounded_part': 'BEC: the round trip with fill and the structural half of unfill on every string in scope.',
-        'explanation': 'Mixed: the line iterator unfill is built on is proved; unfill itself (adapter chains) is checked by bounded exhaustive enumeration.',
+        'units': ['U4', 'U18'], 'level': 'other', 'trusted': ['A3', 'A4', 'A12'],
+        'proved_part': 'Verus: NonEmptyLines::next (U4) returns the next non-empty line without its \\n / \\r\\n, the right LineEnding, advances past it; None iff only empty '
+                       'lines remain; every slice on a char boundary; terminates. unfill (U18), for every text — the structural half of the statement: the indents consist '
+                       'only of prefix characters; the initial indent is a prefix of the first line, the subsequent indent of every later line; the returned text contains no '
+                       'line break other than one final line ending; the reported line ending is CRLF exactly when some ending was seen and all seen were CRLF; and every '
+                       'slice taken in the second loop is in range and on a char boundary (NonEmptyLines yields exactly the non-empty elements of text.lines(): lemma '
+                       'nel_is_filtered_lines over the byte-level definitions of both).',
+        'bounded_part': 'BEC: the round trip with fill (relational over two calls: unfill(fill(t)) recovers text, indents, width, line ending) and the structural half again by execution.',
+        'explanation': 'Mixed: the structural half and panic-freedom of unfill are proved for all inputs (std iterators through assumed std contracts; the link between '
+                       'NonEmptyLines and str::lines is a proved lemma); the round-trip half is relational and checked by bounded exhaustive enumeration (known finding KF2 lies in it).',
     },
     'C16': {
         'units': [], 'level': 'exploration', 'trusted': [],
